@@ -1321,7 +1321,28 @@ func (vc *VC) lookup(x *ssa.Lookup, get getter, st *State, guard Term, emit bool
 }
 
 func (vc *VC) mapKey(k Val, kt types.Type) Term {
-	return vc.asTerm(k)
+	return vc.mapKeyTerm(vc.asTerm(k), kt)
+}
+
+// mapKeyTerm: Go compares string keys by contents, the SMT arrays of the map model by term identity;
+// string keys therefore go through a canonical representative: canon(a) = canon(b) exactly when the
+// strings are equal (str.eq), and canon(a) is itself equal to a.
+func (vc *VC) mapKeyTerm(k Term, kt types.Type) Term {
+	b, ok := kt.Underlying().(*types.Basic)
+	if !ok || b.Info()&types.IsString == 0 {
+		return k
+	}
+	eqf := vc.strEqFun()
+	f := vc.declareFun("str.canon", []string{"Str"}, "Str")
+	if !vc.declSet["str.canon.ax"] {
+		vc.declSet["str.canon.ax"] = true
+		vc.quantCtx = true
+		vc.decls = append(vc.decls,
+			"(assert (forall ((a Str) (b Str)) (! (=> ("+eqf+" a b) (= (str.canon a) (str.canon b))) :pattern (("+eqf+" a b)))))",
+			"(assert (forall ((a Str) (b Str)) (! (=> (= (str.canon a) (str.canon b)) ("+eqf+" a b)) :pattern ((str.canon a) (str.canon b)))))",
+			"(assert (forall ((a Str)) (! (and ("+eqf+" (str.canon a) a) (= (str.canon (str.canon a)) (str.canon a))) :pattern ((str.canon a)))))")
+	}
+	return app(f, k)
 }
 
 func (vc *VC) mapUpdate(x *ssa.MapUpdate, st *State, reach Term) {
@@ -1574,15 +1595,18 @@ func (vc *VC) implFun(it types.Type) string {
 // strings
 
 func (vc *VC) strConcat(a, b Term) Term {
-	if vc.noDefine {
-		vc.fail("string concatenation under a quantifier or in a recursive spec function is not supported")
+	// concatenation is one uninterpreted function with its defining axioms (length, contents of both
+	// halves), so that a contract -- also under a quantifier -- and the code talk about the same term
+	f := vc.declareFun("str.cat", []string{"Str", "Str"}, "Str")
+	if !vc.declSet["str.cat.ax"] {
+		vc.declSet["str.cat.ax"] = true
+		vc.quantCtx = true
+		vc.decls = append(vc.decls,
+			"(assert (forall ((a Str) (b Str)) (! (and (= (st.len (str.cat a b)) (+ (st.len a) (st.len b))) (<= 0 (st.off (str.cat a b)))) :pattern ((str.cat a b)))))",
+			"(assert (forall ((a Str) (b Str) (i Int)) (! (=> (and (<= 0 i) (< i (st.len a))) (= (select (st.base (str.cat a b)) (+ (st.off (str.cat a b)) i)) (select (st.base a) (+ (st.off a) i)))) :pattern ((select (st.base (str.cat a b)) (+ (st.off (str.cat a b)) i))))))",
+			"(assert (forall ((a Str) (b Str) (i Int)) (! (=> (and (<= 0 i) (< i (st.len b))) (= (select (st.base (str.cat a b)) (+ (st.off (str.cat a b)) (st.len a) i)) (select (st.base b) (+ (st.off b) i)))) :pattern ((str.cat a b) (select (st.base b) (+ (st.off b) i))))))")
 	}
-	r := vc.freshConst("cat", "Str")
-	vc.quantCtx = true
-	vc.addAssume("true", and(eq(strLen(r), app("+", strLen(a), strLen(b))), app("<=", "0", app("st.off", r)),
-		"(forall ((i Int)) (! (=> (and (<= 0 i) (< i "+strLen(a)+")) (= "+strAt(r, "i")+" "+strAt(a, "i")+")) :pattern ("+strAt(r, "i")+")))",
-		"(forall ((i Int)) (! (=> (and (<= 0 i) (< i "+strLen(b)+")) (= "+strAt(r, app("+", strLen(a), "i"))+" "+strAt(b, "i")+")) :pattern ("+strAt(b, "i")+")))"))
-	return r
+	return app(f, a, b)
 }
 
 func (vc *VC) strEqFun() string {
